@@ -620,6 +620,21 @@ pub fn structured_cases(thorough: bool) -> Vec<FileCase> {
             entries: e,
         });
     }
+    // J. highly compressible content: far less than one stored byte per entry
+    let mut comp: Vec<(CompressionType, u32, Option<usize>, usize)> = vec![(CompressionType::Zlib, 9, None, 64)];
+    if cfg!(feature = "zstd") {
+        comp.push((CompressionType::Zstd, 0, None, 64));
+        comp.push((CompressionType::Zstd, 19, Some(65536), 1000));
+    }
+    for (codec, level, bs, interval) in comp {
+        let n = if cfg!(miri) { 50 } else { 60_000 };
+        let e: Vec<Entry> = (0..n).map(|i| (format!("{:08}", i).into_bytes(), vec![])).collect();
+        out.push(FileCase {
+            label: format!("J/highly-compressible/{}-level{}", codec_name(codec), level),
+            cfg: WCfg { codec, level, block_size: bs, interval: Some(interval), levels: Some(0) },
+            entries: e,
+        });
+    }
     {
         let mut e = k2_fixed(&mut rng, 6, 2);
         e[2].1 = rng.bytes((1 << 21) - 1);
